@@ -226,13 +226,13 @@ type machine struct {
 	partial  bool   // explore mode: the locking script is a prefix; keep its end state
 	endState string // canonical state at the end of the prefix
 	returned bool   // a top-level OP_RETURN ended the script
-	flags   uint32
-	genesis bool
-	ctx     *TxCtx
-	sigchk  SigCheck
-	trace   bool
-	res     *Result
-	maxNum  int
+	flags    uint32
+	genesis  bool
+	ctx      *TxCtx
+	sigchk   SigCheck
+	trace    bool
+	res      *Result
+	maxNum   int
 }
 
 func cp(b []byte) []byte { return append([]byte{}, b...) }
@@ -258,11 +258,11 @@ func boolv(b bool) []byte {
 }
 
 const (
-	maxElemBefore  = 520
-	maxOpsBefore   = 500
-	maxStackBefore = 1000
+	maxElemBefore   = 520
+	maxOpsBefore    = 500
+	maxStackBefore  = 1000
 	maxScriptBefore = 10000
-	maxKeysBefore  = 20
+	maxKeysBefore   = 20
 )
 
 func (m *machine) fail(e string) bool {
